@@ -71,6 +71,8 @@ class Fn:
         self.vcmp = False       # calls esl_{D,F}Compare_old (`VCmp`)
         self.vinf = False       # floating-point routine using negation / infinity / exp / log / exp2 (`VInf`)
         self.vnum = False       # floating-point routine using division / log2 / `(double) n` (`VNum`)
+        self.vsci = False       # a non-integer floating literal at the element type (`VSci α`) ...
+        self.wsci = False       # ... at the wide type (`VSci ω`); the present source has none: only integer-valued literals
         self.vint = False       # converts `int` cells to the floating element type (`VInt α ι`)
         self.arrtype = {}       # C array name -> 'α' (the element type) | 'ω' (double cells in a float routine) | 'ι' (int cells in a floating routine)
         self.vfin = False       # uses `isfinite` / `fabs` at the element type (`VFin α`)
@@ -216,6 +218,28 @@ class Fn:
             return None if v is None else -v
         return None
 
+    def sci_literal(self, n):
+        """(mantissa, decimal exponent) of a non-integer floating literal `m * 10^-e` (from clang's round-trip decimal text), or None"""
+        from decimal import Decimal
+        n = unwrap(n, casts=("LValueToRValue", "NoOp", "FloatingCast"))
+        neg = False
+        if n["kind"] == "UnaryOperator" and n["opcode"] == "-":
+            neg = True
+            n = unwrap(n["inner"][0], casts=("LValueToRValue", "NoOp", "FloatingCast"))
+        if n["kind"] != "FloatingLiteral":
+            return None
+        try:
+            d = Decimal(n["value"])
+        except Exception:
+            return None
+        if not d.is_finite():
+            return None
+        sign, digits, exp = d.as_tuple()
+        m = int("".join(map(str, digits)))
+        if exp >= 0:
+            m, exp = m * 10 ** exp, 0
+        return (neg != bool(sign), m, -exp)
+
     def idx(self, n):
         """index-kind expression -> pure Lean `Int` term"""
         n = unwrap(n, casts=("LValueToRValue", "NoOp", "IntegralCast"))
@@ -288,6 +312,13 @@ class Fn:
                 a = "(VInf.neg (CElem.ofNat %d : α))" % -lit
             else:
                 a = "(CElem.ofNat %d : α)" % lit
+        elif self.elemtype in ("double", "float") and self.sci_literal(n) is not None and not self.is_wide(n):
+            ng, m, e = self.sci_literal(n)
+            self.vsci = True; self.vnum = True
+            a = "(VSci.sci %d %d : α)" % (m, e)
+            if ng:
+                self.vinf = True
+                a = "(VInf.neg %s)" % a
         elif k == "DeclRefExpr":
             nm = n["referencedDecl"]["name"]
             if self.kind.get(nm) != "elem":
@@ -452,6 +483,11 @@ class Fn:
         if lit is not None:
             if lit < 0: self.winf = True
             return "(VInf.neg (VNum.ofNat %d : ω))" % -lit if lit < 0 else "(VNum.ofNat %d : ω)" % lit
+        if self.sci_literal(n) is not None:
+            ng, m, e = self.sci_literal(n)
+            self.wsci = True
+            if ng: self.winf = True
+            return ("(VInf.neg (VSci.sci %d %d : ω))" if ng else "(VSci.sci %d %d : ω)") % (m, e)
         if k == "BinaryOperator" and n["opcode"] in ("+", "-", "*", "/"):
             x = self.welem(n["inner"][0], out)
             y = self.welem(n["inner"][1], out)
@@ -764,6 +800,8 @@ class Fn:
         self.mix = self.mix or getattr(sig, "mix", False)
         self.winf = self.winf or getattr(sig, "winf", False)
         self.vfin = self.vfin or getattr(sig, "vfin", False)
+        self.vsci = self.vsci or getattr(sig, "vsci", False)
+        self.wsci = self.wsci or getattr(sig, "wsci", False)
         self.wfin = self.wfin or getattr(sig, "wfin", False)
         args, wr = [], []
         actual = [a for a in n["inner"][1:] if [self.kind.get(v) for v in self.vars_in(a)] != ["msg"]]
@@ -1279,13 +1317,15 @@ class Fn:
         sig.mix = self.mix
         sig.winf = self.winf
         sig.vfin = self.vfin
+        sig.vsci = self.vsci
+        sig.wsci = self.wsci
         sig.wfin = self.wfin
         return doc + "\n" + head + "\n" + "\n".join(text_lines) + "\n", sig
 
     def binders(self):
         return (("[CWrap α] " if self.wrap else "") + ("[VCmp α] " if self.vcmp else "") +
                 ("[VInf α] " if self.vinf else "[VNum α] " if self.vnum else "") + ("[VFin α] " if self.vfin else "") +
-                ("{ω : Type} [VMix α ω] [%s ω] " % ("VInf" if self.winf else "VNum") if self.mix else "") + ("[VFin ω] " if self.wfin else "") + ("{ι : Type} [VInt α ι] " if self.vint else ""))
+                ("{ω : Type} [VMix α ω] [%s ω] " % ("VInf" if self.winf else "VNum") if self.mix else "") + ("[VFin ω] " if self.wfin else "") + ("{ι : Type} [VInt α ι] " if self.vint else "") + ("[VSci α] " if self.vsci else "") + ("[VSci ω] " if self.wsci else ""))
 
     def result(self, r):
         return r or ""
@@ -1363,7 +1403,7 @@ def generate(src_dir, the_plan=None):
             if not alias:
                 known[nm] = sig
             chunks.append(text)
-            infos.append({"name": t.name, "elem": t.elemtype, "wrap": t.wrap, "vcmp": t.vcmp, "vinf": t.vinf or t.vnum or t.mix or t.vfin or t.vint, "mix": t.mix, "params": sig.params, "writes": sig.writes, "ret": sig.ret, "monadic": t.monadic, **t.stats})
+            infos.append({"name": t.name, "elem": t.elemtype, "wrap": t.wrap, "vcmp": t.vcmp, "vinf": t.vinf or t.vnum or t.mix or t.vfin or t.vint or t.vsci or t.wsci, "mix": t.mix, "params": sig.params, "writes": sig.writes, "ret": sig.ret, "monadic": t.monadic, **t.stats})
     disp = ["/-- name → translated function; arguments grouped by kind in parameter order (arrays, indices, elements);",
             "    outer `none` = unknown name / wrong arity, inner `none` = the routine faults -/",
             "def dispatch %s(name : String) (A : List (Array α)) (I : List Int) (E : List α) : Option (Option (Res α)) :=" % ("[CWrap α] " if any(i["wrap"] for i in infos) else ""),
